@@ -80,6 +80,15 @@ func genPath(r *Rng, s *jsonapi.Schema, o *Out) string {
 	case 8:
 		return "/" + tn() + "//" + id() + "/" + rel() + "/"
 	default:
+		if r.bool() {
+			// longer than the four JSON:API shapes, with relationship names at several
+			// positions (every function that looks at the path must look at the same fragment)
+			parts := []string{tn(), id(), rel(), rel(), rel()}
+			if r.bool() {
+				parts = []string{tn(), id(), "relationships", rel(), rel()}
+			}
+			return "/" + strings.Join(parts[:4+r.IntN(2)], "/")
+		}
 		parts := []string{tn(), id(), "x", "y", rel(), "meta"}
 		return "/" + strings.Join(parts[:1+r.IntN(6)], "/")
 	}
@@ -87,7 +96,8 @@ func genPath(r *Rng, s *jsonapi.Schema, o *Out) string {
 
 var filterVals = []string{"", "label", "%5Cu0020%7Bx", "+%7Bx", "%20%7B%22f%22%3A1%7D", "%C2%A0%7Bx", "%09%7B", "x%7B", "%5Cu007ba", "%5Cu007b%22f%22", "a%26b", "a%23b", "a%5Cb", "a%22b", "a+b", "%7B%7D", "%7B", "a%25", "%7B%22f%22%3A%22name%22%2C%22o%22%3A%22%3D%22%2C%22v%22%3A%22x%26y%22%7D",
 	"%7B%22o%22%3A%22and%22%2C%22v%22%3A%5B%7B%22f%22%3A%22n%22%2C%22o%22%3A%22%3C%22%2C%22v%22%3A1%7D%2C%7B%22o%22%3A%22or%22%2C%22v%22%3A%5B%5D%7D%5D%7D",
-	"%7B%22o%22%3A%22and%22%2C%22v%22%3A1%7D", "x%0Ay", "%E9"}
+	"%7B%22o%22%3A%22and%22%2C%22v%22%3A1%7D", "x%0Ay", "%E9",
+	"ring%5Cu0007", "a%5Cu000bb", "a%7Fb", "%5Cu001f", "tab%5Ct", "nl%5Cn"} // the last six: control characters, which Go and JSON escape differently
 var pageVals = []string{"", "1", "10", "007", "-1", "abc", "a%26b", "+7", "a%23", "1e3", "9223372036854775808"}
 
 func genQuery(r *Rng, s *jsonapi.Schema, o *Out) []string {
